@@ -1,4 +1,9 @@
 pub mod c01;
+pub mod c04;
+pub mod c05;
+pub mod c12;
+pub mod c17;
+pub mod c18;
 pub mod c07;
 pub mod c08;
 pub mod c09;
@@ -23,6 +28,11 @@ pub const COMMON_ASSUMPTIONS: &[&str] = &[
 pub fn info(id: &str) -> Option<Info> {
     Some(match id {
         "C01" => Info { id: "C01", rule: c01::RULE, floor_classes: 100, assumptions: COMMON_ASSUMPTIONS },
+        "C04" => Info { id: "C04", rule: c04::RULE, floor_classes: 20, assumptions: COMMON_ASSUMPTIONS },
+        "C05" => Info { id: "C05", rule: c05::RULE, floor_classes: 40, assumptions: COMMON_ASSUMPTIONS },
+        "C12" => Info { id: "C12", rule: c12::RULE, floor_classes: 10, assumptions: COMMON_ASSUMPTIONS },
+        "C17" => Info { id: "C17", rule: c17::RULE, floor_classes: 10, assumptions: COMMON_ASSUMPTIONS },
+        "C18" => Info { id: "C18", rule: c18::RULE, floor_classes: 6, assumptions: COMMON_ASSUMPTIONS },
         "C07" => Info { id: "C07", rule: c07::RULE, floor_classes: 200, assumptions: COMMON_ASSUMPTIONS },
         "C08" => Info { id: "C08", rule: c08::RULE, floor_classes: 200, assumptions: COMMON_ASSUMPTIONS },
         "C09" => Info { id: "C09", rule: c09::RULE, floor_classes: 200, assumptions: COMMON_ASSUMPTIONS },
@@ -35,6 +45,11 @@ pub fn info(id: &str) -> Option<Info> {
 pub fn run(id: &str, ctx: &mut Ctx) {
     match id {
         "C01" => c01::run(ctx),
+        "C04" => c04::run(ctx),
+        "C05" => c05::run(ctx),
+        "C12" => c12::run(ctx),
+        "C17" => c17::run(ctx),
+        "C18" => c18::run(ctx),
         "C07" => c07::run(ctx),
         "C08" => c08::run(ctx),
         "C09" => c09::run(ctx),
